@@ -3,9 +3,12 @@
 (* TLC state, exported with the lexical classification Present.tla gives it.   *)
 (* Strings grow one character per step (so TLC's workers share the universe);  *)
 (* shards split it by the first two characters (NShards = 1: everything).      *)
+(* Mode "file": the texts come from texts.ndjson ({text}), written by the      *)
+(* harness (structured families whose classification must be the spec's, not   *)
+(* the harness').                                                              *)
 EXTENDS Present, GenBase
 
-CONSTANTS Alphabet, N, Shard, NShards
+CONSTANTS Alphabet, N, Shard, NShards, Mode
 
 VARIABLES s
 
@@ -17,11 +20,14 @@ IndexOf(c) == CHOOSE i \in 1..Len(AlphaSeq) : AlphaSeq[i] = c
 \* a shard owns the strings whose first two characters hash to it; the strings shorter than 2 belong to shard 0
 ShardOf(t) == ((IndexOf(t[1]) - 1) * Len(AlphaSeq) + (IndexOf(t[2]) - 1)) % NShards
 
-Init == s = <<>>
-Next == /\ Len(s) < N
+Given == IF Mode = "file" THEN ndJsonDeserialize("texts.ndjson") ELSE <<>>
+
+Init == IF Mode = "file" THEN \E i \in 1..Len(Given) : s = Given[i].text ELSE s = <<>>
+Next == /\ Mode # "file"
+        /\ Len(s) < N
         /\ \E c \in Alphabet : s' = Append(s, c) /\ (Len(s') # 2 \/ ShardOf(s') = Shard)
 
-Out == IF Len(s) < 2 /\ Shard # 0 THEN TRUE
+Out == IF Mode # "file" /\ Len(s) < 2 /\ Shard # 0 THEN TRUE
        ELSE LET L == Lex(s) IN
             Emit([kind |-> "text", text |-> s, ill |-> L.ill, odd |-> L.odd, amb |-> L.amb, ntok |-> Len(Items(L.toks))])
 =============================================================================
